@@ -12,8 +12,18 @@ package ahtree
 //@ func (*AHtree).Size
 //@   assigns internal
 
+// (C08, rollback) size arithmetic of a successful rollback to a smaller size: the commit-log size is newSize entries and
+// the digest-log size is the number of tree nodes of a tree with newSize leaves (nodesUpto as an uninterpreted pure
+// function of its argument), whatever the sizes were before; the frontier of synced nodes is newSize.
 //@ func (*AHtree).ResetSize
 //@   assigns internal
+//@   ensures c08_clog: r0 == nil && newSize <= 1<<40 && int64(newSize*cLogEntrySize) < old(t.cLogSize) && old(t.cLogSize)%cLogEntrySize == 0 ==> t.cLogSize == int64(newSize*cLogEntrySize)
+//@   ensures c08_dlog: r0 == nil && 0 < newSize && newSize <= 1<<40 && int64(newSize*cLogEntrySize) < old(t.cLogSize) && old(t.cLogSize)%cLogEntrySize == 0 ==> t.dLogSize == int64(nodesUpto(newSize)*sha256.Size)
+//@   ensures c08_dlog0: r0 == nil && newSize == 0 && cLogEntrySize <= old(t.cLogSize) && old(t.cLogSize)%cLogEntrySize == 0 ==> t.dLogSize == 0 && t.pLogSize == 0
+//@   ensures c08_synced: r0 == nil && newSize <= 1<<40 && int64(newSize*cLogEntrySize) < old(t.cLogSize) && old(t.cLogSize)%cLogEntrySize == 0 ==> t.latestSyncedNode == newSize
+
+//@ func nodesUpto
+//@   pure
 
 //@ func (*AHtree).Append
 //@   assigns internal
